@@ -489,6 +489,7 @@ impl<'a> Tx<'a> {
                 return format!("map_with_capacity(h, {})", n);
             }
             "Self::default" if self.ops => return "map_default(h)".into(),
+            "HashMap::with_hasher" | "HashSet::default" | "HashSet::with_hasher" if self.ops => return "map_default(h)".into(), // R76: a freshly constructed empty map / set
             "num_cpus" if self.ops => return "num_cpus()".into(), // R64: the number of CPUs is an arbitrary positive number (external)
             "Guard::unprotected" => return "()".into(),
             "std::thread::yield_now" | "thread::yield_now" if self.ops => return "()".into(), // R63: a scheduling hint has no arena counterpart
@@ -719,6 +720,23 @@ impl<'a> Tx<'a> {
                 format!("table_find({})", all.join(", "))
             }
             "iter" if self.ops && toks(&*m.receiver) == "self" => "iter_new(h, this)".to_string(),
+            // R75 (serde paths): the format's MapAccess / SeqAccess and Serializer are external objects under contract
+            "size_hint" | "next_entry" | "next_element" | "next_key" | "next_value" if self.ops && toks(&*m.receiver) == "access" => {
+                let mut all = vec!["&mut access".to_string()];
+                for a in m.args.iter() { let v = self.expr(a); all.push(v); }
+                format!("access_{}({})", name, all.join(", "))
+            }
+            "collect_map" | "collect_seq" if self.ops && m.args.len() == 1 => {
+                let r = self.expr(&m.receiver);
+                let a = self.expr(&m.args[0]);
+                let a = self.hoist(a);
+                format!("{}({}, {})", name, r, a)
+            }
+            // R77: HashMap / HashSet serialise through their pinned reference
+            "serialize" if self.ops && toks(&*m.receiver).replace(' ', "") == "self.pin()" => {
+                let args: Vec<String> = m.args.iter().map(|a| self.expr(a)).collect();
+                format!("ref_serialize(h, this, {})", args.join(", "))
+            }
             "next" if self.ops && toks(&*m.receiver).replace(' ', "") == "self.node_iter" => "node_iter_next(h, this)".to_string(), // R70: the wrapped traverser
             "next_internal" if self.ops && toks(&*m.receiver) == "self" => "iter_next_internal(h, this)".to_string(),
             "next_internal" if self.ops => format!("iter_next(h, &mut {})", self.expr(&m.receiver)),
@@ -1376,14 +1394,26 @@ impl<'a> Tx<'a> {
             syn::Expr::While(w) if self.ops && !self.verbatim && matches!(&*w.cond, syn::Expr::Let(_)) => {
                 // R39: while let PAT = E { body }  ->  loop { let item = E; if item.is_none() { break; } let PAT' = item.unwrap(); body }
                 if let syn::Expr::Let(l) = &*w.cond {
-                    let e = self.expr(&l.expr);
+                    // R74: while let PAT = E? { body }: an Err of E leaves the function with that error
+                    let (e, tried) = match &*l.expr { syn::Expr::Try(t) => (self.expr(&t.expr), true), other => (self.expr(other), false) };
                     let inner = match &*l.pat { syn::Pat::TupleStruct(ts) if ts.elems.len() == 1 => toks(&ts.elems[0]), other => toks(other) };
                     self.push(ind, "loop".into(), ln, false);
                     let k = self.loop_count;
                     self.loop_count += 1;
                     self.mark(ind + 1, format!("loop:{}", k));
                     self.push(ind, "{".into(), 0, false);
+                    if tried {
+                        self.push(ind + 1, format!("let it_res = {};", e), ln, true);
+                        let rk = self.ret_count;
+                        self.ret_count += 1;
+                        self.push(ind + 1, "if it_res.is_err() {".into(), ln, false);
+                        self.mark(ind + 2, format!("ret#{}", rk));
+                        self.push(ind + 2, "return Err(res_err(it_res));".into(), ln, true);
+                        self.push(ind + 1, "}".into(), 0, false);
+                        self.push(ind + 1, "let it_item = it_res.unwrap();".into(), ln, true);
+                    } else {
                     self.push(ind + 1, format!("let it_item = {};", e), ln, true);
+                    }
                     self.push(ind + 1, "if it_item.is_none() {".into(), ln, false);
                     self.push(ind + 2, "break;".into(), ln, true);
                     self.push(ind + 1, "}".into(), 0, false);
